@@ -160,6 +160,30 @@ Proof.
   bprop. repeat split; auto.
 Qed.
 
+Lemma core_accept_pc0 cfg i sv f l sv' out ltr mt prev prevT es mc j d :
+  server_core cfg i sv f l = HR sv' out ltr -> s_m sv = Some (APQ mt prev prevT es mc j d) ->
+  s_role sv' = Follower -> s_log sv' = firstn prev (s_log sv) ++ es -> s_log sv' <> s_log sv \/ s_term sv' <> s_term sv \/ s_role sv <> Follower ->
+  True.
+Proof. auto. Qed.
+
+Lemma core_log_cases2 cfg i sv f l sv' out ltr :
+  server_core cfg i sv f l = HR sv' out ltr ->
+  s_log sv' = s_log sv \/
+  (s_role sv = Leader /\ s_role sv' = Leader /\ s_term sv' = s_term sv /\
+   exists c j, s_log sv' = s_log sv ++ [mkEntry (s_term sv) c j]) \/
+  (exists mt prev prevT es mc j d,
+     s_m sv = Some (APQ mt prev prevT es mc j d) /\ s_role sv' = Follower /\ s_term sv' = mt /\
+     (prev = 0 \/ (0 < prev /\ term_at (s_log sv) prev = Some prevT)) /\
+     s_log sv' = firstn prev (s_log sv) ++ es /\ s_pc0 sv = true /\ s_term sv <= mt).
+Proof.
+  intros H. destruct l; core_cases H; ut_cases; cbn in *; auto.
+  all: try (right; left; bprop; destruct (s_role sv); try discriminate; repeat split; auto; eexists _, _; reflexivity).
+  all: right; right; eexists _, _, _, _, _, _, _; split; [reflexivity|]; bprop; subst; cbn in *;
+       repeat split; auto; try lia.
+  all: try (destruct (s_role sv); cbn in *; try discriminate; reflexivity).
+  all: try (right; split; [lia|]; destruct (term_at (s_log sv) mprevLogIndex); try discriminate; bprop; congruence).
+Qed.
+
 (* ---------- invariant, part B ---------- *)
 Definition rvq_inv (cfg : config) (s : state) (g : ghost) (m : msg) : Prop :=
   match m with
@@ -196,7 +220,7 @@ Section BinvStep.
   Hypothesis H : step cfg s ev = Commit s'.
   Hypothesis Hfifo : cfg_fifo cfg = true.
   Let g' := observe cfg g s'.
-  Let a' := observe_ack cfg a s'.
+  Let a' := observe_ack cfg a s s'.
   Hypothesis I' : linv cfg s' g'.
   Hypothesis IA' : ainv cfg s' g' a'.
   Hypothesis IE' : einv cfg s' (gv g').
@@ -232,6 +256,293 @@ Section BinvStep.
   Lemma ack_frozen v t k : 1 <= k -> k <= a' v t -> t < s_term (srv s v) -> k <= a v t.
   Proof.
     intros Hk1 Hk Ht. pose proof (term_monotone_step _ _ _ _ v H) as Hm.
-    destruct (ack_cases _ _ _ _ _ _ IE I IA H I' v t k Hk1 Hk) as [|[(prev & prevT & es & mc & j & dd & _ & _ & _ & _ & _ & _ & _ & _ & Hle & _)|(_ & Tm & _)]]; auto; lia.
+    destruct (ack_cases _ _ _ _ _ _ IA H v t k Hk1 Hk) as [|[(prev & prevT & es & mc & j & dd & _ & _ & _ & _ & _ & _ & _ & _ & Hle & _)|(_ & Tm & _)]]; auto; lia.
+  Qed.
+
+  Lemma gv_obs v t : gv g' v t = if (t =? s_term (srv s' v)) && negb (s_voted (srv s' v) =? 0) then s_voted (srv s' v) else gv g v t.
+  Proof. reflexivity. Qed.
+
+  Lemma VS_step v : s_voted (srv s' v) <> 0 -> gv g' v (s_term (srv s' v)) = s_voted (srv s' v).
+  Proof. intros Hv. apply (observe_sees (gv g) s' v Hv). Qed.
+
+  (* a vote recorded at s' is an old one, or v has just voted *)
+  Lemma vote_cases v t' c : gv g' v t' = c -> c <> 0 ->
+    gv g v t' = c \/
+    (is_server cfg v = true /\ t' = s_term (srv s' v) /\ c = s_voted (srv s' v) /\
+     ((c = v /\ s_term (srv s' v) = s_term (srv s v) + 1 /\ s_role (srv s' v) = Candidate /\ s_log (srv s' v) = s_log (srv s v)) \/
+      (exists lt li d, s_m (srv s v) = Some (RVQ t' lt li c d) /\ s_term (srv s v) <= t' /\ s_log (srv s' v) = s_log (srv s v) /\
+         (last_term (s_log (srv s v)) < lt \/ (lt = last_term (s_log (srv s v)) /\ List.length (s_log (srv s v)) <= li))))).
+  Proof.
+    intros Hg Hc. rewrite gv_obs in Hg.
+    destruct ((t' =? s_term (srv s' v)) && negb (s_voted (srv s' v) =? 0)) eqn:E; auto.
+    apply andb_prop in E as [E1 E2]. apply Nat.eqb_eq in E1. apply negb_true_iff, Nat.eqb_neq in E2.
+    destruct (step_srv_cases _ _ _ _ H v) as [Es|[(l & out & ltr & Hv & Ec)|(m & Es)]].
+    - left. rewrite E1, <- Hg, Es. apply (VS _ _ _ _ IB). now rewrite <- Es.
+    - destruct (core_vote_cases _ _ _ _ _ _ _ _ Ec E2) as [(A & B)|[(A & B & C & D)|(mt & lt & li & j & d & Hm & A & B & C & D & F)]].
+      + left. rewrite E1, <- Hg, A, B. apply (VS _ _ _ _ IB). now rewrite <- A.
+      + right. repeat split; auto. left. repeat split; auto. congruence.
+      + right. repeat split; auto. right. exists lt, li, d.
+        assert (Et : t' = mt) by congruence. assert (Ej : c = j) by congruence. rewrite Et, Ej. repeat split; auto.
+    - left. rewrite E1, <- Hg, Es. cbn. apply (VS _ _ _ _ IB). rewrite Es in E2. exact E2.
+  Qed.
+
+  Lemma V0_step v t' c : gv g' v t' = c -> c <> 0 -> v <> c -> t' <= s_term (srv s' c).
+  Proof.
+    intros Hg Hc Hne. pose proof (term_monotone_step _ _ _ _ c H) as Hm.
+    destruct (vote_cases _ _ _ Hg Hc) as [Ho|(_ & _ & _ & [(A & _)|(lt & li & d & Hsm & _)])].
+    - pose proof (V0 _ _ _ _ IB v t' c Ho Hc Hne). lia.
+    - congruence.
+    - destruct (Rm _ _ _ _ IB _ _ Hsm) as (_ & _ & Hle & _). lia.
+  Qed.
+
+  Lemma cand_cases c : s_role (srv s' c) = Candidate ->
+    (s_role (srv s c) = Candidate /\ s_term (srv s' c) = s_term (srv s c) /\ s_log (srv s' c) = s_log (srv s c)) \/
+    (is_server cfg c = true /\ s_role (srv s c) <> Leader /\ s_term (srv s' c) = s_term (srv s c) + 1 /\
+     s_log (srv s' c) = s_log (srv s c) /\ s_voted (srv s' c) = c).
+  Proof.
+    intros Hr. destruct (step_srv_cases _ _ _ _ H c) as [Es|[(l & out & ltr & Hv & Ec)|(m & Es)]].
+    - left. rewrite Es in *. auto.
+    - destruct (core_cand_cases _ _ _ _ _ _ _ _ Ec Hr) as [?|(A & B & C & D)]; auto. right. auto.
+    - left. rewrite Es in *. cbn in *. auto.
+  Qed.
+
+  Lemma rvq_inv_keep m : rvq_inv cfg s g m -> rvq_inv cfg s' g' m.
+  Proof.
+    destruct m; try (intros; exact Logic.I). unfold rvq_inv. intros (A & B & C & D & E).
+    pose proof (term_monotone_step _ _ _ _ msource H) as Hm.
+    split; [auto|]. split; [auto|]. split; [lia|]. split.
+    - intros Hr Ht Hz. destruct (cand_cases _ Hr) as [(R1 & R2 & R3)|(_ & _ & R2 & _)]; [|lia].
+      rewrite R3. apply D; auto; [congruence | now apply Ggl0].
+    - intros Hg.
+      destruct (tl_step_cases _ _ _ _ _ IE I H mterm) as [(E1 & E2)|[(e & E1 & _ & _ & E2 & _)|(Z & _ & i & Hi & Ei & Rc & Tc & E1 & _)]];
+        fold g' in E1; try fold g' in E2.
+      + rewrite E1. apply E. congruence.
+      + destruct E as (n & Hn & El & Eli); [congruence|]. exists n. rewrite E1, app_length. split; [lia|].
+        split; auto. rewrite firstn_app. replace (n - List.length (tl g mterm)) with 0 by lia. cbn. now rewrite app_nil_r.
+      + fold g' in Ei. assert (Eim : i = msource) by congruence. rewrite Eim in *.
+        destruct (D Rc Tc Z) as [-> ->]. exists (List.length (s_log (srv s msource))). rewrite E1.
+        split; [lia|]. rewrite firstn_all. auto.
+  Qed.
+
+  Lemma Rn_step d m : In m (net s' d) -> rvq_inv cfg s' g' m.
+  Proof.
+    intros Hin. destruct (net_in_cases _ _ _ _ H _ _ Hin) as [Ho|[Hs|(c & cm & ->)]]; [| |exact Logic.I].
+    - apply rvq_inv_keep. eapply Rn; eauto.
+    - destruct Hs as (i & l & md & ltr & Hi & Hc & _). destruct m; try exact Logic.I.
+      destruct (core_rvq_out _ _ _ _ _ _ _ _ _ _ _ _ _ _ Hc) as (-> & -> & Hd & -> & -> & -> & El & Et & Er).
+      unfold rvq_inv. split; [auto|]. split; [auto|]. split; [lia|]. split.
+      + intros _ _ _. rewrite El. auto.
+      + intros Hg. assert (Hne : gl g' (s_term (srv s i)) <> 0) by (rewrite Hg; apply (is_server_pos _ _ Hi)).
+        destruct (G1 _ _ _ I' _ Hne) as [_ [[_ Hl]|Hlt]]; rewrite Hg in *; [|lia].
+        pose proof (T0 _ _ _ I' i Hi Hl) as Etl. fold g' in Etl. rewrite Et in Etl.
+        exists (List.length (s_log (srv s i))). rewrite <- Etl, El. split; [lia|]. now rewrite firstn_all.
+  Qed.
+
+  Lemma Rm_step i m : s_m (srv s' i) = Some m -> rvq_inv cfg s' g' m.
+  Proof.
+    intros Hm. destruct (role_term_log_cases _ _ _ _ i H) as [(_ & _ & _ & _ & C)|[(m0 & _ & _ & _ & _ & C & Hin)|(l & out & ltr & Hi & Hc)]].
+    - rewrite C in Hm. apply rvq_inv_keep. eapply Rm; eauto.
+    - rewrite C in Hm. injection Hm as <-. apply rvq_inv_keep. eapply Rn; eauto.
+    - rewrite (core_m_stable _ _ _ _ _ _ _ _ Hc) in Hm. apply rvq_inv_keep. eapply Rm; eauto.
+  Qed.
+
+  Lemma K_step v t k : 1 <= k -> k <= a' v t -> own g' t k ->
+    hasp (s_log (srv s' v)) g' t k \/ exists t1, t1 <= s_term (srv s' v) /\ bad g' t k t1.
+  Proof.
+    intros Hk1 Hk Ho. pose proof (term_monotone_step _ _ _ _ v H) as Hmono.
+    destruct (ack_cases _ _ _ _ _ _ IA H v t k Hk1 Hk) as [Hka|[(prev & prevT & es & mc & j & dd & Hv & Hm & Hpc & Rf & Tm & Hok & El & Hkl & _)|(Rl & Tl & Hkl)]].
+    - (* an old acknowledgement *)
+      assert (Hog : own g t k).
+      { apply own_back'; auto. pose proof (A1 _ _ _ _ IA v t). lia. }
+      destruct (own_len _ _ _ Hog) as [_ Hklen].
+      destruct (K _ _ _ _ IB v t k Hk1 Hka Hog) as [Hh|(t1 & Ht1 & Hb)];
+        [|right; exists t1; split; [lia|apply bad_keep'; auto]].
+      assert (Hsame : s_log (srv s' v) = s_log (srv s v) -> hasp (s_log (srv s' v)) g' t k \/ exists t1, t1 <= s_term (srv s' v) /\ bad g' t k t1).
+      { intros E. left. rewrite E. apply hasp_keep'; auto. }
+      destruct (role_term_log_cases _ _ _ _ v H) as [(_ & _ & C & _)|[(m & _ & _ & C & _)|(l & out & ltr & Hi & Hc)]]; auto.
+      destruct (core_log_cases2 _ _ _ _ _ _ _ _ Hc) as [C|[(_ & _ & _ & c & j & C)|(mt & prev & prevT & es & mc & j & d & Hm & Rf & Tm & Hok & C & Hpc & Hle)]]; auto.
+      + (* the leader appends *)
+        left. apply hasp_keep'; auto. unfold hasp in *. rewrite C. rewrite <- Hh.
+        apply firstn_prefix_stable; [apply is_prefix_app|]. apply (firstn_eq_length k (tl g t)); auto.
+      + (* v accepts AppendEntries of term mt *)
+        destruct (accept_len _ _ _ I _ _ _ _ _ _ _ _ Hm Hok) as (Ll & Lle & Lp). rewrite <- C in Ll, Lp.
+        assert (Htv : t <= s_term (srv s v)) by (apply (A1b _ _ _ _ IA v t); lia).
+        destruct (Nat.eq_dec mt t) as [->|Hne].
+        * (* same term: FIFO gives a snapshot at least as long as what was acknowledged *)
+          destruct (Fp _ _ _ _ IA v t _ Hpc Hm) as [Hfp _]; [cbn; apply Nat.eqb_refl|]. cbn in Hfp.
+          left. apply hasp_keep'; auto. unfold hasp. apply is_prefix_firstn; auto. lia.
+        * assert (Hlt : t < mt) by lia.
+          destruct (Qm _ _ _ _ IA _ _ Hm) as [(_ & _ & _ & Htail) _].
+          destruct (T3m _ _ _ I _ _ Hm) as (Hgl & _).
+          destruct (hasp_dec (tl g mt) g t k) as [Hy|Hn].
+          -- left. apply hasp_keep'; auto. unfold hasp in *.
+             assert (Hlen : k <= List.length (tl g mt)) by (apply (firstn_eq_length k (tl g t)); auto).
+             assert (HkL : k <= List.length (s_log (srv s' v))).
+             { destruct (Nat.le_gt_cases k (List.length (s_log (srv s' v)))) as [|Hgt]; auto. exfalso.
+               set (p := List.length (s_log (srv s' v))) in *.
+               destruct (nth_error (tl g mt) p) as [e|] eqn:En; [|apply nth_error_None in En; lia].
+               assert (Et : e_term e = mt) by (apply (Htail p e); auto; lia).
+               assert (E1 : nth_error (tl g t) p = Some e).
+               { rewrite <- (nth_error_firstn_lt k) by lia. rewrite <- Hy. rewrite nth_error_firstn_lt by lia. exact En. }
+               apply nth_error_In in E1. apply (S1b _ _ _ _ IA) in E1. lia. }
+             rewrite (is_prefix_firstn _ _ k Lp HkL). exact Hy.
+          -- right. exists mt. split; [lia|]. apply bad_keep'; auto. repeat split; auto.
+    - (* v has just acknowledged: its log is the accepted snapshot *)
+      destruct (accept_len _ _ _ I _ _ _ _ _ _ _ _ Hm Hok) as (Ll & Lle & Lp). rewrite <- El in Ll, Lp.
+      left. unfold hasp. rewrite (is_prefix_firstn _ _ k Lp) by lia.
+      symmetry. apply firstn_prefix_stable; [apply Gtl|lia].
+    - (* v is the leader of t *)
+      left. unfold hasp. pose proof (T0 _ _ _ I' v (Ls_step _ _ _ _ _ _ IA H v Rl) Rl) as E. fold g' in E. rewrite E, Tl. reflexivity.
+  Qed.
+
+  Lemma ack_frozen' v t k : 1 <= k -> k <= a' v t -> t < s_term (srv s' v) -> k <= a v t.
+  Proof.
+    intros Hk1 Hk Ht.
+    destruct (ack_cases _ _ _ _ _ _ IA H v t k Hk1 Hk) as [|[(prev & prevT & es & mc & j & dd & _ & _ & _ & _ & Tm & _)|(_ & Tm & _)]]; auto; lia.
+  Qed.
+
+  Lemma last_term_le l b : (forall e, In e l -> e_term e <= b) -> last_term l <= b.
+  Proof.
+    intros Hb. destruct l as [|x r] eqn:E; [rewrite last_term_nil; lia|].
+    destruct (last_term_nth (x :: r)) as (e & Hn & ->); [discriminate|]. apply Hb. eapply nth_error_In; eauto.
+  Qed.
+
+  Lemma Wa_step v t' c : gv g' v t' = c -> c <> 0 -> s_role (srv s' c) = Candidate -> s_term (srv s' c) = t' -> gl g' t' = 0 ->
+    forall t k, t < t' -> 1 <= k -> k <= a' v t -> own g' t k ->
+      hasp (s_log (srv s' c)) g' t k \/ exists t1, t1 < t' /\ bad g' t k t1.
+  Proof.
+    intros Hg Hc Rc Tc Hz t k Htt Hk1 Hk Ho.
+    pose proof (Ggl0 _ Hz) as Hz0.
+    assert (Hne : gv g' v t' <> 0) by congruence.
+    destruct (E1 _ _ _ IE' v t' Hne) as [Hvt _].
+    assert (Hka : k <= a v t) by (apply ack_frozen'; auto; lia).
+    assert (Hog : own g t k) by (apply own_back'; auto; pose proof (A1 _ _ _ _ IA v t); lia).
+    assert (Hkeep : forall X, hasp X g t k \/ (exists t1, t1 < t' /\ bad g t k t1) ->
+                    hasp X g' t k \/ (exists t1, t1 < t' /\ bad g' t k t1)).
+    { intros X [Hh|(t1 & A & B)]; [left; apply hasp_keep'; auto | right; exists t1; split; auto; apply bad_keep'; auto]. }
+    assert (HK : hasp (s_log (srv s v)) g t k \/ exists t1, t1 <= s_term (srv s v) /\ bad g t k t1)
+      by (apply (K _ _ _ _ IB); auto).
+    destruct (cand_cases _ Rc) as [(R1 & R2 & R3)|(Hic & R1 & R2 & R3 & R4)]; rewrite R3; apply Hkeep.
+    - (* c was already a candidate of t' *)
+      assert (Tcs : s_term (srv s c) = t') by lia.
+      destruct (vote_cases _ _ _ Hg Hc) as [Ho'|(Hv & _ & _ & [(A & B & _)|(lt & li & d & Hsm & Hle & El & Hup)])].
+      + apply (Wa _ _ _ _ IB v t' c); auto.
+      + rewrite A in *. lia.
+      + (* v grants its vote to c now *)
+        destruct (Rm _ _ _ _ IB _ _ Hsm) as (_ & Hcd & _ & Hcl & _).
+        destruct (Hcl R1 Tcs Hz0) as [-> ->].
+        destruct HK as [Hh|(t1 & A & B)].
+        * assert (U : hasp (s_log (srv s c)) g t k \/ bad g t k (last_term (s_log (srv s c)))).
+          { apply (up_to_date g (s_log (srv s c)) (s_log (srv s v)) t k);
+              [apply (T1 _ _ _ I) | apply (S1a _ _ _ _ IA) | apply (S1b _ _ _ _ IA) | apply (T5 _ _ _ I)
+              | apply (T2 _ _ _ I) | apply (T2 _ _ _ I) | exact Hh | exact Hog |].
+            destruct Hup as [Hu|[Hu1 Hu2]]; [left; exact Hu | right; split; [exact Hu1 | exact Hu2]]. }
+          destruct U as [Hy|Hb]; [left; exact Hy|].
+          right. exists (last_term (s_log (srv s c))). split; auto.
+          assert (last_term (s_log (srv s c)) <= t').
+          { rewrite <- Tcs. apply last_term_le. apply (S2 _ _ _ _ IA). }
+          destruct Hb as (_ & Hgl & _). destruct (Nat.eq_dec (last_term (s_log (srv s c))) t'); [congruence|lia].
+        * right. exists t1. split; auto. destruct B as (_ & Hgl & _).
+          destruct (Nat.eq_dec t1 t'); [congruence|lia].
+    - (* c has just timed out into t' *)
+      destruct (vote_cases _ _ _ Hg Hc) as [Ho'|(Hv & _ & _ & [(A & B & _)|(lt & li & d & Hsm & Hle & El & Hup)])].
+      + exfalso. destruct (Nat.eq_dec v c) as [->|Hvc].
+        * assert (Hn0 : gv g c t' <> 0) by congruence. destruct (E1 _ _ _ IE c t' Hn0). lia.
+        * pose proof (V0 _ _ _ _ IB v t' c Ho' Hc Hvc). lia.
+      + rewrite A in *. destruct HK as [Hh|(t1 & A' & B')]; auto. right. exists t1. split; auto. lia.
+      + exfalso. destruct (Rm _ _ _ _ IB _ _ Hsm) as (_ & _ & Hle' & _). lia.
+  Qed.
+
+  Lemma Wb_step t' : gl g' t' <> 0 -> exists Q, NoDup Q /\ incl Q (seq 1 (cfg_n cfg)) /\ cfg_n cfg < List.length Q * 2 /\
+        forall v, In v Q -> gv g' v t' = gl g' t' /\
+          forall t k, t < t' -> 1 <= k -> k <= a' v t -> own g' t k ->
+            hasp (tl g' t') g' t k \/ exists t1, t1 < t' /\ bad g' t k t1.
+  Proof.
+    intros Hne.
+    assert (Hold : gl g t' <> 0 -> gl g' t' = gl g t' -> exists Q, NoDup Q /\ incl Q (seq 1 (cfg_n cfg)) /\ cfg_n cfg < List.length Q * 2 /\
+        forall v, In v Q -> gv g' v t' = gl g' t' /\
+          forall t k, t < t' -> 1 <= k -> k <= a' v t -> own g' t k ->
+            hasp (tl g' t') g' t k \/ exists t1, t1 < t' /\ bad g' t k t1).
+    { intros Hn0 Eg. destruct (Wb _ _ _ _ IB t' Hn0) as (Q & N & Inc & Hq & Hall). exists Q. repeat split; auto.
+      - rewrite Eg. destruct (Hall v H0) as [Hv _]. rewrite <- Hv.
+        apply (gv_extends _ _ _ _ _ IE H). congruence.
+      - intros t k Htt Hk1 Hk Ho. destruct (Hall v H0) as [Hv Hw].
+        assert (Hvn : gv g v t' <> 0) by congruence.
+        destruct (E1 _ _ _ IE v t' Hvn) as [Hvt _]. pose proof (term_monotone_step _ _ _ _ v H) as Hm.
+        assert (Hka : k <= a v t) by (apply ack_frozen'; auto; lia).
+        assert (Hog : own g t k) by (apply own_back'; auto; pose proof (A1 _ _ _ _ IA v t); lia).
+        destruct (Hw t k Htt Hk1 Hka Hog) as [Hh|(t1 & A & B)].
+        + left. apply hasp_keep'; auto. unfold hasp in *. rewrite <- Hh.
+          apply firstn_prefix_stable; [apply Gtl|]. destruct (own_len _ _ _ Hog). apply (firstn_eq_length k (tl g t)); auto.
+        + right. exists t1. split; auto. apply bad_keep'; auto. }
+    destruct (tl_step_cases _ _ _ _ _ IE I H t') as [(_ & E2)|[(e & _ & _ & Hn0 & E2 & _)|(Z & _ & i & Hi & Ei & Rc & Tc & E1' & _ & _ & _ & Q)]];
+      fold g' in E2 || fold g' in Ei.
+    - apply Hold; auto. congruence.
+    - apply Hold; auto.
+    - fold g' in E1'. assert (Rcf : s_role (srv s i) <> Follower) by congruence.
+      exists (s_vgrant (srv s i)). repeat split.
+      + apply ssorted_NoDup, (E7 _ _ _ IE).
+      + intros v Hv. apply is_server_in_seq. eapply (E4 _ _ _ IE i Hi Rcf v Hv).
+      + unfold is_quorum in Q. now apply Nat.ltb_lt in Q.
+      + rewrite Ei. destruct (E4 _ _ _ IE i Hi Rcf v H0) as [Ea _]. rewrite Tc in Ea. rewrite <- Ea.
+        apply (gv_extends _ _ _ _ _ IE H). rewrite Ea. apply (is_server_pos _ _ Hi).
+      + intros t k Htt Hk1 Hk Ho.
+        destruct (E4 _ _ _ IE i Hi Rcf v H0) as [Ea _]. rewrite Tc in Ea.
+        assert (Hvn : gv g v t' <> 0) by (rewrite Ea; apply (is_server_pos _ _ Hi)).
+        destruct (E1 _ _ _ IE v t' Hvn) as [Hvt _]. pose proof (term_monotone_step _ _ _ _ v H) as Hm.
+        assert (Hka : k <= a v t) by (apply ack_frozen'; auto; lia).
+        assert (Hog : own g t k) by (apply own_back'; auto; pose proof (A1 _ _ _ _ IA v t); lia).
+        rewrite E1'.
+        destruct (Wa _ _ _ _ IB v t' i Ea (is_server_pos _ _ Hi) Rc Tc Z t k Htt Hk1 Hka Hog) as [Hh|(t1 & A & B)].
+        * left. apply hasp_keep'; auto.
+        * right. exists t1. split; auto. apply bad_keep'; auto.
+  Qed.
+
+  Lemma binv_step : binv cfg s' g' a'.
+  Proof.
+    constructor.
+    - apply Rn_step.
+    - apply Rm_step.
+    - apply VS_step.
+    - apply V0_step.
+    - apply K_step.
+    - apply Wa_step.
+    - apply Wb_step.
   Qed.
 End BinvStep.
+
+Lemma binv_init cfg : binv cfg (init cfg) ghost0 (fun _ _ => 0).
+Proof.
+  constructor; cbn; try congruence; try tauto; try discriminate; intros; try lia; try congruence.
+Qed.
+
+Lemma areach_binv cfg s g a : cfg_fifo cfg = true -> areach cfg s g a -> binv cfg s g a.
+Proof.
+  intros Hf. induction 1; [apply binv_init|].
+  pose proof (areach_greach _ _ _ _ H) as Hg.
+  assert (Hg' : greach cfg s' (observe cfg g s')) by (econstructor; eauto).
+  apply (binv_step cfg s g a ev s'); auto.
+  - eapply vreach_einv, greach_vreach; eauto.
+  - eapply greach_linv; eauto.
+  - eapply areach_ainv; eauto.
+  - eapply greach_linv; eauto.
+  - apply (vreach_einv _ _ _ (greach_vreach _ _ _ Hg')).
+Qed.
+
+(* ---------- an acknowledged own-term entry of a quorum is in the log of every later leader ---------- *)
+Definition chosen (cfg : config) (a : acks) (t k : nat) : Prop :=
+  exists Q, NoDup Q /\ incl Q (seq 1 (cfg_n cfg)) /\ cfg_n cfg < List.length Q * 2 /\ forall v, In v Q -> k <= a v t.
+
+Lemma chosen_no_bad cfg s g a t k :
+  binv cfg s g a -> chosen cfg a t k -> own g t k -> forall t1, ~ bad g t k t1.
+Proof.
+  intros IB (Q & N & Inc & Hq & Hall) Ho.
+  destruct (own_len _ _ _ Ho) as [Hk1 _].
+  intros t1. induction t1 as [t1 IH] using (well_founded_induction lt_wf).
+  intros (Hlt & Hgl & Hn).
+  destruct (Wb _ _ _ _ IB t1 Hgl) as (Q1 & N1 & Inc1 & Hq1 & Hall1).
+  destruct (quorum_intersect (cfg_n cfg) Q Q1) as (v & V & V1); auto.
+  destruct (Hall1 v V1) as [_ Hw].
+  destruct (Hw t k Hlt Hk1 (Hall v V) Ho) as [Hh|(t2 & A & B)]; [contradiction|].
+  exact (IH t2 A B).
+Qed.
